@@ -170,6 +170,16 @@ MUTANTS = [
      "        # update recurrent spikes\n        self.feedback_spikes = self.get_neuron(self.__feedback_neuron_name).spike", "        # update recurrent spikes\n        self.feedback_spikes = self.get_neuron(self.__feedback_neuron_name).spike.roll(1, 0)"),
     ("batch_eventreducer_first_row", "C11", 1500, "inferno/observe/reducers/general.py",
      "            return torch.where(self.criterion(obs), 0, state + self.dt).to(", "            return torch.where(self.criterion(obs)[:1].expand_as(obs) | self.criterion(obs), 0, state + self.dt).to("),
+    ("trainer_eval_keeps_monitors", "C15", 1500, "inferno/learn/base.py",
+     "        else:\n            for monitor in self.monitor_pool_.monitors:\n                monitor.deregister()", "        else:\n            for monitor in list(self.monitor_pool_.monitors)[1:]:\n                monitor.deregister()"),
+    ("pool_alias_ignores_tags", "C15", 1500, "inferno/observe/pooling.py",
+     "            if hasattr(monitors[name], \"_tags\") and monitors[name]._tags == tags:", "            if hasattr(monitors[name], \"_tags\"):"),
+    ("pool_add_monitor_eval_stays_registered", "C15", 1500, "inferno/observe/pooling.py",
+     "        if not self.training:\n            monitor.deregister()", "        pass"),
+    ("trainer_train_registers_only_unregistered_first", "C15", 1500, "inferno/learn/base.py",
+     "        if mode:\n            for monitor in self.monitor_pool_.monitors:\n                monitor.register()", "        if mode:\n            for monitor in self.monitor_pool_.monitors:\n                if not monitor.registered:\n                    monitor.register()\n                    break"),
+    ("monitor_register_again_double", "C15", 1500, "inferno/observe/monitors.py",
+     "        elif not self.registered:\n            # try to get the referenced module", "        else:\n            # try to get the referenced module"),
     ("resize_keeps_head", "C13", 3000, INFRA,
      "            slices[dim] = slice(tensor.shape[dim] - size, None)\n            return tensor[*slices]", "            slices[dim] = slice(None, size)\n            return tensor[*slices]"),
     ("resize_no_align", "C13", 3000, INFRA,
